@@ -646,3 +646,24 @@ func stepsThatDo(h *ssa.Function, pred func(ssa.Instruction) bool) []ssa.Instruc
 	})
 	return sites
 }
+
+// spilledResult: result #i of a return. In a function with defers the results are spilled (`*cell = v; rundefers;
+// t = *cell; return t`): the value stored into the cell in the returning block is what this return returns.
+func spilledResult(r *ssa.Return, i int) ssa.Value {
+	v := r.Results[i]
+	u, ok := v.(*ssa.UnOp)
+	if !ok || u.Op != token.MUL {
+		return v
+	}
+	al, ok := u.X.(*ssa.Alloc)
+	if !ok {
+		return v
+	}
+	instrs := r.Block().Instrs
+	for j := len(instrs) - 1; j >= 0; j-- {
+		if st, ok := instrs[j].(*ssa.Store); ok && st.Addr == ssa.Value(al) {
+			return st.Val
+		}
+	}
+	return v
+}
